@@ -20,6 +20,7 @@ REPO = os.environ.get("VERIF_REPO", "/repo")
 sys.path.insert(0, os.path.join(REPO, "src"))
 
 GRAMMAR_ROWS = '<start> ::= <r> ";" <r>\n<r> ::= <x> "," <x>\n<x> ::= "1" | "2" | "3"\n'
+GRAMMAR_NEST = '<start> ::= <n>\n<n> ::= <d> | <d> <n>\n<d> ::= "1" | "2"\n'          # <n> occurs below <n>: `.` and `..` differ
 GRAMMAR_LIST = '<start> ::= <item>{1,3}\n<item> ::= <d> | "(" <d> <d> ")"\n<d> ::= "1" | "2" | "x"\n'
 
 
@@ -124,6 +125,19 @@ def P_list():
     ]
 
 
+def P_nest():
+    N = lambda t: all_nodes(t, "<n>")              # noqa: E731
+    S = lambda t: all_nodes(t, "<start>")          # noqa: E731
+    return [
+        ("int(<start>.<n>[0]) == 1", lambda t: truthy_all([(kids(m)[0],) for m in dot(S(t), "<n>")], lambda m: int(m) == 1)),
+        ("int(<start>..<n>[0]) == 1", lambda t: truthy_all([(kids(m)[0],) for m in dotdot(S(t), "<n>")], lambda m: int(m) == 1)),
+        ("str(<n>.<n>[0]) != '2'", lambda t: truthy_all([(kids(m)[0],) for m in dot(N(t), "<n>")], lambda m: str(m) != "2")),
+        ("len(*<start>.<n>) == 1", lambda t: len(dot(S(t), "<n>")) == 1),
+        ("len(*<start>..<n>) <= 2", lambda t: len(dotdot(S(t), "<n>")) <= 2),
+        ("str(<start>.<n>.<d>) == '1'", lambda t: truthy_all([(m,) for m in dot(dot(S(t), "<n>"), "<d>")], lambda m: str(m) == "1")),
+    ]
+
+
 def _exists_raising(matches, fn):
     """exists with a body that may raise: a raising instance is not a witness"""
     for m in matches:
@@ -153,7 +167,7 @@ def run(tier="quick", seed=0, pid="C07"):
     evaluations, distinct, samples, violations = 0, set(), [], []
     reported = set()
     undecided = []
-    for gname, gtext, programs in (("rows", GRAMMAR_ROWS, P_rows()), ("list", GRAMMAR_LIST, P_list())):
+    for gname, gtext, programs in (("rows", GRAMMAR_ROWS, P_rows()), ("list", GRAMMAR_LIST, P_list()), ("nest", GRAMMAR_NEST, P_nest())):
         ws = words(gtext, 81 if tier == "quick" else 400)
         if tier == "quick":
             ws = ws[:: max(1, len(ws) // 45)]
@@ -193,8 +207,8 @@ def run(tier="quick", seed=0, pid="C07"):
                 samples.append({"grammar": gname, "constraint": text, "trees": len(trees)})
     return {
         "evaluations": evaluations, "distinct_nontrivial": len(distinct),
-        "rule": ("38 constraint programs (rule / . / .. / [] / * / |..| selectors, and/or/not, comprehensions, forall/exists incl. nested and "
-                 "rebinding, sub-expressions that raise) x the words of two small grammars (quick: every ~2nd word; thorough: all), each "
+        "rule": ("46 constraint programs (rule / . / .. / [] / * / |..| selectors, and/or/not, comprehensions, forall/exists incl. nested and "
+                 "rebinding, sub-expressions that raise) x the words of three small grammars (quick: every ~2nd word; thorough: all), each "
                  "tree checked twice with the same constraint objects; distinct = distinct (program, word); all non-trivial"),
         "bound": "two grammars, words up to 9 atoms", "samples": samples, "violations": violations, "undecided": undecided,
         "wall_s": round(time.time() - t0, 1),
@@ -215,7 +229,7 @@ sys.exit(c07.replay({gtext!r}, {text!r}, {word!r}))
 
 def replay(gtext, text, word):
     from fandango.language.parse.parse import parse
-    progs = dict(P_rows() + P_list())
+    progs = dict(P_rows() + P_list() + P_nest())
     g, cs = parse(gtext + "where " + text + "\n", use_stdlib=False, use_cache=False)
     t = g.parse(word)
     want = bool(progs[text](t))
